@@ -11,7 +11,7 @@ PKGDIR = {'measure': 'banyand/measure', 'stream': 'banyand/stream', 'trace': 'ba
           'timestamp': 'pkg/timestamp', 'partition': 'pkg/partition', 'node': 'pkg/node', 'db': 'banyand/property/db', 'bydbql': 'pkg/bydbql',
           'convert': 'pkg/convert', 'filter': 'pkg/filter', 'inverted': 'pkg/index/inverted', 'sort': 'pkg/iter/sort', 'aggregation': 'pkg/query/aggregation',
           'v1': 'pkg/pb/v1', 'sdk': 'pkg/pipeline/sdk', 'grpc': 'banyand/liaison/grpc', 'queue': 'banyand/queue', 'sampler': 'banyand/trace/sampler'}
-SKIP = "^(TestMeasure|TestStream|TestTrace|TestInMergeFilter_.*|TestProperty|TestQueue|TestIntegration.*|TestGrpc|TestLoadSheddingIntegration|TestDynamicBufferSizingIntegration|TestLoadTestUnderMemoryPressure|TestPropertyRepairGossip|TestCacheClean)$"
+SKIP = "^(TestMeasure|TestStream|TestTrace|TestInMergeFilter_.*|TestProperty|TestQueue|TestIntegration.*|TestGrpc|TestLoadSheddingIntegration|TestDynamicBufferSizingIntegration|TestLoadTestUnderMemoryPressure|TestPropertyRepairGossip|TestCacheClean|TestPub|TestSyncStreamingPartsDoesNotLeakReaperGoroutines)$"
 ENV = dict(os.environ, GOFLAGS='-mod=mod', GOPROXY='off')
 
 def sh(cmd, cwd=None, timeout=3600):
